@@ -22,6 +22,16 @@ CHECKS = {
             "reachability predicates, decomposition over graphs, purity and store immutability. Bounded by case count and graph size (<=8 nodes).",
             "Trusted: harness/models/t1.py (documented rule); exact differential only when perf caps are off.",
             "DESIGN.md §3 C12"),
+    "C02": ("exploration",
+            "Hypothesis differential/metamorphic test: same world and turn script under a base config vs base + arbitrary validated subtree behind a closed gate",
+            "For each of 7 gates (perf master, parallel closed three ways, GEL, quality, hybrid, reflection, scheduler) a generated "
+            "in-range subtree (random or an aggressive preset) is added with the gate closed; utterances, canonical stream bytes, "
+            "snapshot bodies, the engine state digest after every turn, the set of files written, t3 streams (timings masked) and other "
+            "streams must equal the run that omits the subtree, no gated artefact (gel/reflection/scheduler logs, perf/quality traces) may "
+            "appear, and the validator must not materialise perf/quality blocks. Worlds give the gated code work (GEL edges, >=2 hits, "
+            "forced plan reflection flag); other features are switched on/off at random in both runs.",
+            "Trusted: observation layer harness/observe.py; shadow tracing excluded by design (see ASSUMPTIONS in the evidence).",
+            "DESIGN.md §3 C02"),
     "C04": ("exploration",
             "Hypothesis property test of apply_changes against a recording store double + reference model, and generated turn histories through the real orchestrator with per-turn invariants",
             "(a) generated approved lists x store behaviour scripts (result shapes, 6 exception types, per-delta raise patterns, "
